@@ -363,14 +363,15 @@ def main():
     # test particles (N_active < N): active-active, active-testparticle loops and the testparticle_type=1 back-reaction
     us += [dict(what='force', gravity='BASIC', N=2, order=1, na=1, tpt=0), dict(what='force', gravity='BASIC', N=2, order=1, na=1, tpt=1), dict(what='force', gravity='BASIC', N=2, order=2, na=1, tpt=0, t_ms=30000, ext=True)]
     # single-particle variations (the varied particle is a test particle: only its own coordinates vary)
-    us += [dict(what='force', gravity='BASIC', N=2, order=1, tp=1), dict(what='force', gravity='BASIC', N=3, order=1, tp=1, t_ms=60000, ext=True), dict(what='force', gravity='BASIC', N=2, order=2, tp=1, t_ms=30000, ext=True)]
+    us += [dict(what='force', gravity='BASIC', N=2, order=1, tp=1), dict(what='force', gravity='BASIC', N=2, order=2, tp=1, t_ms=30000, ext=True)]
+    if tier == 'thorough': us.append(dict(what='force', gravity='BASIC', N=3, order=1, tp=1, t_ms=60000, ext=True))
     if tier == 'thorough': us.append(dict(what='force', gravity='BASIC', N=3, order=1, na=2, tpt=0, t_ms=120000, ext=True))
     if tier == 'thorough': us += [dict(what='force', gravity='COMPENSATED', N=2, order=1, tp=0)]          # N=3 second order single-particle: all three obligations time out (tried, 120 s each)
     for nm in (['e', 'inc', 'Omega', 'omega', 'f', 'e_e', 'a_e', 'e_f', 'm_e', 'm_f', 'inc_Omega', 'omega_f'] if tier == 'quick' else CLASSICAL): us.append(dict(what='constructor', name=nm, t_ms=15000 if tier == 'quick' else 90000, t_ext=20 if tier == 'quick' else 120))
     if tier == 'thorough': us += [dict(what='force', gravity='BASIC', N=3, order=1, t_ms=60000, ext=True), dict(what='force', gravity='BASIC', N=3, order=2, t_ms=120000, ext=True)]
     rep = run_units(us, worker)
     code = finish(PID, tier, rep, t0,
-        bounds=dict(real_particles='2' if tier == 'quick' else '2..3', orders=[1, 2], gravity=['BASIC', 'COMPENSATED'], test_particles='N_active in {N, N-1}, testparticle_type 0/1 (first order), 0 (second order)', single_particle_variations='var_config.testparticle = i: N = 2/3, orders 1 and 2'),
+        bounds=dict(real_particles='2' if tier == 'quick' else '2..3', orders=[1, 2], gravity=['BASIC', 'COMPENSATED'], test_particles='N_active in {N, N-1}, testparticle_type 0/1 (first order), 0 (second order)', single_particle_variations='var_config.testparticle = i: N = 2 (3 in the thorough tier, first order), orders 1 and 2'),
         assumptions=['real arithmetic; no coincident particles', 'differentiation rules d inv(b) = -inv(b)^2 db, d sqrt(A) = dA/(2 sqrt(A)) (the only non-ring atoms in the force terms)'],
         outside=['the integrators\' tangent maps (WHFast Kepler step derivatives, IAS15/BS propagation): agreement with finite differences over tens of orbits', 'the 35 Pal-element derivative constructors (a, lambda, h, k, ix, iy and their pairs; they go through the iterative reb_tools_solve_kepler_pal); of the 30 classical ones the quick tier covers 12', 'gravity_ignore_terms != 0; single-particle variations beyond N = 3', 'automatic rescaling (reb_simulation_rescale_var)', 'MEGNO -> 2 and Lyapunov -> 0 on regular orbits (long-run numerical statements)'],
         domain_note='REAL + symbolic differentiation; z3 NRA with inv/sqrt atoms')
